@@ -967,7 +967,10 @@ def run_split(res, rng, texts):
         glue = ' ' * rng.choice((1, 1, 2))
         if opts and text.rstrip().endswith(')') and rng.random() < 0.3:
             glue = ''            # "...)imp:n=1" is legal
-        card = f'{rng.randint(1, 999)} {mat} {text}{glue}{opts}'
+        sep = ' '
+        if mat != '0' and text.startswith('(') and rng.random() < 0.5:
+            sep = ''             # "1 3 -2.7(1:2)" : density glued to '('
+        card = f'{rng.randint(1, 999)} {mat}{sep}{text}{glue}{opts}'
         res.seen(card)
         res.count('split:' + ('options' if opts else 'bare'))
         try:
